@@ -1214,7 +1214,7 @@ def run_len(ctx, k, n):
                  sample=lambda: {"part": "len", "value": v, "own_unsigned_code_bits": len(enc_uint(abs(v))),
                                  "own_signed_code_bits": len(enc_sint(v))})
 
-    run_given(big, body, ctx, ctx.pick(1500, 40000))
+    run_given(big, body, ctx, ctx.pick(1500, 160000))
 
 
 # ---------------------------------------------------------------------------
@@ -1241,8 +1241,8 @@ def run_shard(spec, ctx):
     if kind == "exh":
         run_exh(ctx, k, n, _mods())
     elif kind == "machine":
-        run_machines(ctx, ctx.pick(80, 1000), ctx.pick(30, 50))
-        run_rnd_machines(ctx, ctx.pick(1500, 40000), ctx.pick(30, 50))
+        run_machines(ctx, ctx.pick(80, 4000), ctx.pick(30, 50))
+        run_rnd_machines(ctx, ctx.pick(1500, 160000), ctx.pick(30, 50))
     else:
         run_len(ctx, k, n)
 
